@@ -453,7 +453,13 @@ def agree_ref(ctx, fi, ref_src, title, what=('return', 'heap', 'substores'), rul
     if 'calls' in what:
         def selc(II, o):
             return [e for e in II.events if e.kind == 'call' and (o is None or e.owner == o)
-                    and (e.data.get('resolved') is not None or e.data.get('candidates')) and not e.data.get('inlined')]
+                    and (e.data.get('resolved') is not None or 'candidates' in e.data) and not e.data.get('inlined')]
+
+        def anon(t):
+            # the receiver of a method no package class defines (a file handle, a progress bar), held in a loop-carried local:
+            # its havoc name only reflects how many other locals the loop carries
+            a_ = t.single_atom() if isinstance(t, Term) else None
+            return lift('<loop-carried local>') if a_ is not None and a_.kind in ('loopvar', 'after') else t
 
         def packed(e):
             extra = [e.data.get('star') if e.data.get('star') is not None else T.NONE,
@@ -466,7 +472,10 @@ def agree_ref(ctx, fi, ref_src, title, what=('return', 'heap', 'substores'), rul
                 rv = e.data.get('recv')
                 return T.mk_tuple([rv if rv is not None else T.NONE] + [T.mk_tuple([lift(k), v]) for k, v in items] + extra)
             names = T.mk_tuple([lift(k) for k, _ in sorted(e.data['kwargs'])])
-            return T.mk_tuple(list(e.data['args']) + [names] + [v for _, v in sorted(e.data['kwargs'])] + extra)
+            args_ = list(e.data['args'])
+            if args_ and e.data.get('method') and not e.data.get('candidates'):
+                args_[0] = anon(args_[0])
+            return T.mk_tuple(args_ + [names] + [v for _, v in sorted(e.data['kwargs'])] + extra)
         _match_groups(ctx, rule, title, fi, 'call', selc(I, own), selc(IR, None),
                       lambda e: [('callee', lift(e.data['name'])), ('arguments', packed(e)), ('guard', e.cond())], txt)
     if 'asserts' in what:
